@@ -6,6 +6,8 @@ exactly `size` bytes which the datasheet decoder reads back, in full, as one ins
 Structure: `frontEnd_shape` (Lemmas/EncodeShape.lean) lists the shapes of such operands; each shape is shown sound
 here: it is either rejected (by `translate` or by `fitWidth`) or encoded (`Encodes`, C01).  Since repair batch B2 the
 index register text is validated (21 legal texts, `validRegs`), which is what makes the case analysis finite.
+Repair batch B3: accumulator offsets with auto increment / decrement (`A,X+`) are among the rejected shapes; label offsets
+(`LDA TABLE,X`) are outside the table-of-constants setting (`C12_setting_has_no_label_offsets`, see the section below).
 -/
 import CoCoVerif.Props.C01Text
 import CoCoVerif.Props.C12
@@ -242,7 +244,7 @@ theorem sound_offset_reg_ind {o : Asm.Operand} {c k n : Nat} {h : Option Nat} {m
   have ht : translateOperand o r =
       translateOffset true r (.numeric n h m neg) (regName k) (0x80 ||| regBits (regName k)) := by
     simp only [translateOperand, hb.1]
-    exact translateExtInd_offset hc h0 hlt hb.2.1 hb.2.2 hl hn hrr (regName_valid k)
+    exact translateExtInd_offset hc h0 hlt hb.2.1 hb.2.2.1 hb.2.2.2 hl hn hrr (regName_valid k)
   have hp9 : (0x80 ||| regBits (regName k)) ||| ((if true = true then 0x90 else 0x80) + 0x09) = 128 + 32 * k + 25 := by
     rw [regBits_regName k hk4]; exact or_high' k hk4 25 (by omega)
   have off := C01_indirect_offset hr hp hb hc hk4 hrr (i := n) (h := h) (m := m)
@@ -281,7 +283,7 @@ theorem sound_pcr {o : Asm.Operand} {c n : Nat} {h : Option Nat} {m : Mode} {neg
       exact translateIndexed_pcr hc h0 hlt hl hrr
     · simp only [if_true] at hk ⊢
       simp only [translateOperand, hk.1]
-      exact translateExtInd_pcr hc h0 hlt hk.2.1 hk.2.2 hl hrr
+      exact translateExtInd_pcr hc h0 hlt hk.2.1 hk.2.2.1 hk.2.2.2 hl hrr
   cases hw : pcrWide n m neg
   · have hpb : (if ind then 0x80 else 0) ||| ((if ind then 0x90 else 0x80) + (if pcrWide n m neg then 0x0D else 0x0C)) =
         (if ind then 0x90 else 0x80) + 0x0C := by rw [hw]; cases ind <;> decide
@@ -334,7 +336,9 @@ theorem sound_indexed {o : Asm.Operand} (hk : o.kind = .indexed) (hs : IdxShape 
             exact soundEnc_of_encodes hx
           · obtain ⟨a1, a2, _, _⟩ := valid_acc right hmem hpc l (abd_mem habd)
             obtain ⟨i, hi⟩ := consumes_spec a2
-            exact soundEnc_of_encodes (enc_indexed_acc hk hc hcell.1 hcell.2 hl habd hrr hv hpc a1 hi)
+            cases hpm : (hasSub ['+'] right || hasSub ['-'] right)
+            · exact soundEnc_of_encodes (enc_indexed_acc hk hc hcell.1 hcell.2 hl habd hrr hv hpc hpm a1 hi)
+            · exact C12_rejected (C12_acc_autoincrement_rejected hk hc (cell_lt hcell.1) hl habd hrr hpm)
           · by_cases hn : n = 0
             · subst hn
               obtain ⟨x, hx⟩ := noOff { o with left := .text [] } hk rfl hrr
@@ -376,26 +380,29 @@ theorem sound_bracket {o : Asm.Operand} (hb : Bracketed o) (hs : IdxShape o) : S
             · have h0 := cell_ne_zero hcell.1 (by decide)
               have : translateOperand o' r = .error .operandType := by
                 simp only [translateOperand, hb'.1]
-                exact translateExtInd_bad hc h0 hlt hb'.2.1 hb'.2.2 hl' hr' hv hpc hpm hbad
+                exact translateExtInd_bad hc h0 hlt hb'.2.1 hb'.2.2.1 hb'.2.2.2 hl' hr' hv hpc hpm hbad
               exact ⟨C12_rejected this, Or.inr ⟨_, this⟩⟩
             · obtain ⟨i, hi⟩ := consumes_spec e2
-              have := enc_extInd_noOff hb'.1 hc hcell.1 hcell.2 hb'.2.1 hb'.2.2 hl' hr' hv hpc hgood e1 hi
+              have := enc_extInd_noOff hb'.1 hc hcell.1 hcell.2 hb'.2.1 hb'.2.2.1 hb'.2.2.2 hl' hr' hv hpc hgood e1 hi
               exact ⟨soundEnc_of_encodes this, Or.inl ⟨_, this⟩⟩
           rcases hleft with ⟨l, hl, rfl | habd⟩ | ⟨n, h, m, neg, hl⟩
           · exact (noOff o hb hl hrr).1
           · obtain ⟨_, _, a1, a2⟩ := valid_acc right hmem hpc l (abd_mem habd)
             obtain ⟨i, hi⟩ := consumes_spec a2
-            exact soundEnc_of_encodes (enc_extInd_acc hb.1 hc hcell.1 hcell.2 hb.2.1 hb.2.2 hl habd hrr hv hpc a1 hi)
+            cases hpm : (hasSub ['+'] right || hasSub ['-'] right)
+            · exact soundEnc_of_encodes
+                (enc_extInd_acc hb.1 hc hcell.1 hcell.2 hb.2.1 hb.2.2.1 hb.2.2.2 hl habd hrr hv hpc hpm a1 hi)
+            · exact C12_rejected (C12_acc_autoincrement_rejected_ind hb hc hlt hl habd hrr hpm)
           · by_cases hn : n = 0
             · subst hn
               have hz := translateOperand_zero_val o r (Or.inr hb.1) hl hrr hnp
-              rcases (noOff { o with left := .text [] } ⟨hb.1, hb.2.1, hb.2.2⟩ rfl hrr).2 with ⟨x, hx⟩ | ⟨e, he⟩
+              rcases (noOff { o with left := .text [] } hb rfl hrr).2 with ⟨x, hx⟩ | ⟨e, he⟩
               · exact soundEnc_of_encodes (encodes_congr hz hx)
               · exact C12_rejected (by rw [hz]; exact he)
             · rcases valid_kinds right hmem with hpm | hpcr | ⟨k, hk4, rfl⟩
               · have h0 := cell_ne_zero hcell.1 (by decide)
                 refine C12_rejected (e := .operandType) ?_
-                rw [hkk, translateExtInd_offset hc h0 hlt hb.2.1 hb.2.2 hl hn hrr hv]
+                rw [hkk, translateExtInd_offset hc h0 hlt hb.2.1 hb.2.2.1 hb.2.2.2 hl hn hrr hv]
                 exact translateOffset_pm_reject hpm
               · subst hpcr; cases hpc
               · exact sound_offset_reg_ind hr hp hb hc hl hn hk4 hrr
@@ -496,7 +503,45 @@ theorem C12_full : C12_Statement := by
     · exact sound_extended hr hp hk hv
     · exact sound_extInd_numeric hr hp hk hv
   | indexed hk _ hs => exact sound_indexed hr hp hk hs
-  | bracket hk _ h1 h2 hs => exact sound_bracket hr hp ⟨hk, h1, h2⟩ hs
+  | bracket hk _ h1 h2 h3 hs => exact sound_bracket hr hp ⟨hk, h1, h2, h3⟩ hs
+
+/-! ### label offsets are outside the setting of `C12_Statement`
+
+Repair batch B3 added a new operand shape: a LABEL (or label expression) as the constant offset of a pointer register
+(`LDA TABLE,X`; `o.left = .val (.address j m)` or an address expression, `LabelLeft` in Lemmas/EncodeLabel.lean).
+`C12_Statement` resolves the operand against a table of EQU CONSTANTS (`ConstTab`: every entry numeric), so no
+`.address` value ever reaches an operand and the shape analysis (`frontEnd_shape`, `IdxShape`) is unchanged: the left part
+of an index operand is an empty / accumulator text or a NUMBER.  The theorem below says so.  What is emitted for the
+label-offset shape is not final after `translate` and `fit_operand_width` (the address pass in between supplies the
+field), so it cannot be a `SoundEnc` statement; its soundness — `size` bytes that decode, in full, as one instruction of
+the row — is `C01_label_offset` (Props/C01.lean), stated on the `fixAll` step. -/
+
+/-- against a table of constants the front end never builds a label offset -/
+theorem C12_setting_has_no_label_offsets :
+    ∀ r ∈ Gen.instructions, r.isPseudo = false → ∀ (text : Str) (t : SymTab) (o0 o : Asm.Operand), ConstTab t →
+      createOperand text r = .ok o0 → resolveOperand o0 r t = .ok o →
+      (o.kind = .indexed ∨ (o.kind = .extIndirect ∧ o.value.isNumeric = false)) →
+      ∀ left l, o.left = .val left → ¬ LabelLeft left l := by
+  intro r hr hp text t o0 o ht hc hres hk left l hl hll
+  have hsd := nonpseudo_not_stringDefine r hr hp
+  have ht' : ConstTable t := ht
+  have idx : IdxShape o → False := by
+    rintro ⟨right, _, ⟨l', hl', _⟩ | ⟨n, h, m, neg, hl'⟩⟩
+    · rw [hl] at hl'; cases hl'
+    · rw [hl] at hl'
+      injection hl' with e
+      subst e
+      cases hll
+  cases frontEnd_shape ht' hsd hp hc hres with
+  | relative hk' => rcases hk with h | ⟨h, _⟩ <;> rw [hk'] at h <;> cases h
+  | special hk' _ => rcases hk with h | ⟨h, _⟩ <;> rw [hk'] at h <;> cases h
+  | inherent hk' _ => rcases hk with h | ⟨h, _⟩ <;> rw [hk'] at h <;> cases h
+  | numeric hk' _ hv =>
+    rcases hk with h | ⟨_, h⟩
+    · rcases hk' with h' | h' | h' | h' <;> rw [h] at h' <;> cases h'
+    · rw [hv] at h; cases h
+  | indexed _ _ hs => exact idx hs
+  | bracket _ _ _ _ _ hs => exact idx hs
 
 /-! ### non-vacuity: the hypotheses of `C12_full` are met by source texts, and the statements are accepted -/
 
@@ -528,13 +573,13 @@ theorem builtAndAccepted_spec {r : InstrRow} {text : Str} {k : OpKind} (h : buil
       | error e => rw [h3] at h; simp at h
       | ok pkg => exact ⟨o0, o, pkg, rfl, h2, h.1, h3⟩
 
-/-- `C12_full` applied to `LDA 5,PCR`, `LDA [-200,PCR]`, `LDA A,X+`, `PSHU S,X`, `LDX #-1`: each is built, accepted, and
+/-- `C12_full` applied to `LDA 5,PCR`, `LDA [-200,PCR]`, `LDA A,X`, `PSHU S,X`, `LDX #-1`: each is built, accepted, and
 therefore (by the theorem) emits `size` bytes that decode as one instruction -/
-example : ∀ p ∈ [("LDA", "5,PCR", OpKind.indexed), ("LDA", "[-200,PCR]", .extIndirect), ("LDA", "A,X+", .indexed),
+example : ∀ p ∈ [("LDA", "5,PCR", OpKind.indexed), ("LDA", "[-200,PCR]", .extIndirect), ("LDA", "A,X", .indexed),
       ("PSHU", "S,X", .special), ("LDX", "#-1", .immediate), ("LDA", "1-$FF", .extended)],
     ∃ r ∈ Gen.instructions, r.mnemonic = p.1 ∧ ∃ o0 o pkg, createOperand p.2.1.toList r = .ok o0 ∧
       resolveOperand o0 r [] = .ok o ∧ translateOperand o r = .ok pkg ∧ SoundEnc o r := by
-  have hrows : ∀ p ∈ [("LDA", "5,PCR", OpKind.indexed), ("LDA", "[-200,PCR]", .extIndirect), ("LDA", "A,X+", .indexed),
+  have hrows : ∀ p ∈ [("LDA", "5,PCR", OpKind.indexed), ("LDA", "[-200,PCR]", .extIndirect), ("LDA", "A,X", .indexed),
       ("PSHU", "S,X", .special), ("LDX", "#-1", .immediate), ("LDA", "1-$FF", .extended)],
       ∃ r ∈ Gen.instructions, r.mnemonic = p.1 ∧ r.isPseudo = false ∧ builtAndAccepted r p.2.1.toList p.2.2 = true := by
     decide +kernel
@@ -551,6 +596,7 @@ end CoCo.Props
 section axioms
 open CoCo.Props
 #print axioms C12_full
+#print axioms C12_setting_has_no_label_offsets
 #print axioms sound_indexed
 #print axioms sound_bracket
 #print axioms sound_special
